@@ -18,6 +18,14 @@ from pysym.values import Num, PathRaise, tz
 RT = 'spatialpandas.spatialindex.rtree'
 
 
+def scaled_keys(inv, bounds, p):
+    """the curve-order stub: distances realising the permutation, spread over the whole range 0 .. 2^(d p) - 1 a Hilbert curve of
+    order p can return (so that arithmetic on the keys meets the magnitudes the real distances have)"""
+    n, d = bounds.shape[0], max(1, bounds.shape[1] // 2)
+    top = (1 << min(d * int(p), 62)) - 1
+    return inv[:n].astype(np.int64) * np.int64(top // max(n - 1, 1))
+
+
 def make_interp(perm):
     it = Interp()
     mod = it.module(RT)
@@ -25,7 +33,7 @@ def make_interp(perm):
     for j, k in enumerate(perm):
         inv[k] = j
     # curve order stub: argsort(distances) == perm
-    it.stubs['_distances_from_bounds'] = Stub(lambda bounds, tb, p: inv[:bounds.shape[0]].copy(), '_distances_from_bounds -> arbitrary permutation')
+    it.stubs['_distances_from_bounds'] = Stub(lambda bounds, tb, p: scaled_keys(inv, bounds, p), '_distances_from_bounds -> arbitrary permutation, spread over 0..2^(d p)-1')
     def construct(*args):
         # the jitclass constructor: an interpreted instance whose fields are set by the class's own __init__
         obj = SelfObj('_NumbaRtree', mod)
@@ -35,7 +43,7 @@ def make_interp(perm):
     return it, mod
 
 
-def explore(n, page_size, dims=2, nan_rows=True, perm=None, mode='covers', max_paths=60000, budget_s=None, second_query=False):
+def explore(n, page_size, dims=2, nan_rows=True, perm=None, mode='covers', max_paths=60000, budget_s=None, second_query=False, p=10):
     """-> result dict; status holds / violated (+model) / unknown"""
     values.set_mul_mode('exact')
     t0 = time.time()
@@ -71,7 +79,7 @@ def explore(n, page_size, dims=2, nan_rows=True, perm=None, mode='covers', max_p
                 bounds[i, d + dims] = Num(hi[i][d], nan[i])
         try:
             tree = HilbertRtree.__new__(HilbertRtree)
-            it.call(init, [tree, bounds], {'p': 10, 'page_size': page_size})
+            it.call(init, [tree, bounds], {'p': p, 'page_size': page_size})
             qn = tuple(Num(v) for v in q)
             q2n = tuple(Num(v) for v in q2)
             if mode == 'covers':
@@ -222,7 +230,7 @@ def real_tree(b, page_size, perm=None, p=10):
     for j, k in enumerate(perm):
         inv[k] = j
     saved = R._distances_from_bounds
-    R._distances_from_bounds = lambda bounds, tb, p: inv[:bounds.shape[0]].copy()
+    R._distances_from_bounds = lambda bounds, tb, p: scaled_keys(inv, bounds, p)
     try:
         t = R.HilbertRtree.__new__(R.HilbertRtree)
         t._page_size = max(1, page_size)
@@ -234,11 +242,11 @@ def real_tree(b, page_size, perm=None, p=10):
     return t
 
 
-def replay(res, n, page_size, dims, nan_rows, perm, mode):
+def replay(res, n, page_size, dims, nan_rows, perm, mode, p=10):
     """-> (reproduced?, witness dict, how)"""
     b, q = concrete_boxes(res['model'], n, dims, nan_rows)
     inter, cov, ov, tb = oracle_x(b, q, dims)
-    attempts = [('public API p=%d' % p, None, p) for p in (10, 1, 3)] + [('forced curve order (py_func build)', perm, 10)]
+    attempts = [('public API p=%d' % pp, None, pp) for pp in dict.fromkeys((p, 10, 1, 3))] + [('forced curve order (py_func build) p=%d' % p, perm, p)]
     for how, pm, p in attempts:
         try:
             t = real_tree(b, page_size, pm, p)
